@@ -1339,6 +1339,14 @@ FwdState::reforward()
     if (request->bodyNibbled())
         return 0;
 
+    // The attempt that produced this reply has failed (e.g., the connection
+    // was closed in the middle of the response body). The request has been
+    // sent, so only retriable requests may be sent again.
+    if (err && !checkRetriable()) {
+        debugs(17, 3, "No, the failed attempt has sent a request that is not retriable");
+        return 0;
+    }
+
     if (destinations->empty() && !PeerSelectionInitiator::subscribed) {
         debugs(17, 3, "No alternative forwarding paths left");
         return 0;
